@@ -4858,11 +4858,14 @@ namespace jsoncons {
                 case json_storage_kind::object:
                 {
                     visitor.begin_object(size(), tag(), context, ec);
+                    if (JSONCONS_UNLIKELY(ec)) {return;} // stop at the first error, the visitor is not in a state to receive more events
                     const object& o = cast<object_storage>().value();
                     for (auto it = o.begin(); it != o.end(); ++it)
                     {
                         visitor.key(string_view_type(((*it).key()).data(),(*it).key().length()), context, ec);
+                        if (JSONCONS_UNLIKELY(ec)) {return;}
                         (*it).value().dump_noflush(visitor, ec);
+                        if (JSONCONS_UNLIKELY(ec)) {return;}
                     }
                     visitor.end_object(context, ec);
                     break;
@@ -4870,10 +4873,12 @@ namespace jsoncons {
                 case json_storage_kind::array:
                 {
                     visitor.begin_array(size(), tag(), context, ec);
+                    if (JSONCONS_UNLIKELY(ec)) {return;}
                     const array& o = cast<array_storage>().value();
                     for (const_array_iterator it = o.begin(); it != o.end(); ++it)
                     {
                         (*it).dump_noflush(visitor, ec);
+                        if (JSONCONS_UNLIKELY(ec)) {return;}
                     }
                     visitor.end_array(context, ec);
                     break;
@@ -4933,10 +4938,18 @@ namespace jsoncons {
                 case json_storage_kind::object:
                 {
                     visitor.begin_object(size(), tag(), context, ec);
+                    if (JSONCONS_UNLIKELY(ec))
+                    {
+                        return write_result{unexpect, ec};
+                    }
                     const object& o = cast<object_storage>().value();
                     for (auto it = o.begin(); it != o.end(); ++it)
                     {
                         visitor.key(string_view_type(((*it).key()).data(),(*it).key().length()), context, ec);
+                        if (JSONCONS_UNLIKELY(ec))
+                        {
+                            return write_result{unexpect, ec};
+                        }
                         (*it).value().dump_noflush(visitor, ec);
                         if (JSONCONS_UNLIKELY(ec))
                         {
@@ -4953,6 +4966,10 @@ namespace jsoncons {
                 case json_storage_kind::array:
                 {
                     visitor.begin_array(size(), tag(), context, ec);
+                    if (JSONCONS_UNLIKELY(ec))
+                    {
+                        return write_result{unexpect, ec};
+                    }
                     const array& o = cast<array_storage>().value();
                     for (const_array_iterator it = o.begin(); it != o.end(); ++it)
                     {
